@@ -134,7 +134,8 @@ theorem link_rows_none (n : Nat) (J : Groups) (hr : ∀ L ∈ J, ∀ c ∈ L, c 
 /-- **What `merge_matrix_cells` does to the groups**: cells `c`, `d` share a group afterwards exactly when `c` is
 present and `c`, `d` are related by the equivalence generated by "same group before" and "listed in one join list,
 both present". -/
-theorem mergeCells_spec {A : Mat} {J : Groups} {idx : Option Groups} {A' : Mat} {il' : Groups}
+theorem mergeCells_spec {α : Type} [Add α] [Zero α] {A : Mat α} {J : Groups} {idx : Option Groups} {A' : Mat α}
+    {il' : Groups}
     (h : mergeCells A J idx = .ok (A', il')) (hlen : (idx.getD (singletons A.length)).length = A.length)
     (hgood : Good (idx.getD (singletons A.length))) (c d : Nat) :
     SameGroup il' c d ↔
